@@ -14,6 +14,9 @@ ASSUMPTIONS = ["pixel agreement 1e-7 relative to (1+|value|), off-ray distance 1
                "detector plane: normal = first column of R_tilt through (distance,0,0)"]
 
 
+_G_HOLD = np.zeros(3)
+
+
 def units(tier):
     if tier == "quick":
         return [(i, 2500) for i in range(8)]
@@ -49,7 +52,8 @@ def check(case, ctx):
         L = int(round(L))            # distances and beam centres are often given as whole numbers (Python ints)
         ctx.event("integer-typed-distance")
     # history: the previous reflection of the same grain (results still held by the caller)
-    ctx.keep("det_coor", D.det_coor(O.ro((2 * math.pi / wl) * (np.array([math.cos(0.2), 0.0, math.sin(0.2)]) - np.array([1.0, 0, 0]))), math.cos(0.2), wl, L, py, pz, y0, z0, R, 0.1, -0.2, 0.3))
+    _G_HOLD[:] = (2 * math.pi / wl) * (np.array([math.cos(0.2), 0.0, math.sin(0.2)]) - np.array([1.0, 0, 0]))
+    ctx.keep("det_coor", D.det_coor(_G_HOLD, math.cos(0.2), wl, L, py, pz, y0, z0, R, 0.1, -0.2, 0.3))
     ctx.keep("det_coor2", D.det_coor2(0.2, 0.4, L, py, pz, y0, z0, R, 0.1, -0.2, 0.3))
     ctx.keep("detector_to_lab", D.detector_to_lab(10.0, 20.0, L, py, pz, y0, z0, R))
     t = np.array(case["t"], float) + 0.0
@@ -79,6 +83,12 @@ def check(case, ctx):
                      "det_coor2 of the ray through pixel %r returns %r" % (pf, pc.tolist()))
     ctx.nontrivial(max(abs(tx), abs(ty), abs(tz)) > 0.05 and O.maxabs(t) > 0.1)
     ctx.event("tilted" if max(abs(tx), abs(ty), abs(tz)) > 0.05 else "flat")
+    if int(case["wl"] * 1e6) % 3 == 0:
+        # the caller keeps ONE g-vector array and refills it for every reflection (it held the previous reflection during
+        # the call above)
+        _G_HOLD[:] = Gt
+        Gt = _G_HOLD
+        ctx.event("g-vector-object-refilled-in-place")
     p1 = np.asarray(D.det_coor(Gt, math.cos(tth), wl, L, py, pz, y0, z0, R, ta[0], ta[1], ta[2]), float)
     p2 = np.asarray(D.det_coor2(tth, eta, L, py, pz, y0, z0, R, ta[0], ta[1], ta[2]), float)
     if p1.shape != (2,) or p2.shape != (2,):
